@@ -137,17 +137,19 @@ class Func:
 
 
 def walk_own(fn_node):
-    """Walk the body of a function without descending into nested defs/lambdas/classes."""
-    stack = list(fn_node.body) if hasattr(fn_node, 'body') and isinstance(fn_node.body, list) else [fn_node.body]
+    """Walk the body of a function without descending into nested defs / lambdas / classes
+    (the nested def node itself is yielded, its body is not)."""
+    body = fn_node.body if isinstance(getattr(fn_node, 'body', None), list) else [fn_node.body]
+    stack = list(reversed(body))
+    if isinstance(fn_node, (ast.FunctionDef, ast.AsyncFunctionDef)):
+        # decorators / defaults are evaluated in the enclosing scope: not part of the body
+        pass
     while stack:
         n = stack.pop()
         yield n
-        for c in ast.iter_child_nodes(n):
-            if isinstance(c, (ast.FunctionDef, ast.AsyncFunctionDef, ast.Lambda, ast.ClassDef)):
-                # still yield the def node itself (so callers can see it) but do not descend
-                yield c
-                continue
-            stack.append(c)
+        if isinstance(n, (ast.FunctionDef, ast.AsyncFunctionDef, ast.Lambda, ast.ClassDef)):
+            continue
+        stack.extend(reversed(list(ast.iter_child_nodes(n))))
 
 
 class Cls:
